@@ -305,9 +305,13 @@ class C20(P.Property):
             if not viol and full:
                 if not closed:
                     d.close()
-                d = cls.open(path)
-                closed = False
-                check_all(len(plan["steps"]), "final, after close and reopen")
+                o = outcome(lambda: cls.open(path))
+                if o[0] != "ok":
+                    viol.append(V("C20.reopen", "UNUSABLE", f"final open after close failed: {o}", step=len(plan["steps"])))
+                else:
+                    d = o[1]
+                    closed = False
+                    check_all(len(plan["steps"]), "final, after close and reopen")
         except StopIteration:
             pass
         finally:
